@@ -518,7 +518,7 @@ def load_records(ctx, rng, quats, records, wheres, nstates):
 
 
 TWO_PAIRS = [("point", "rigid"), ("rigid", "rigid"), ("origin", "rigid"), ("rigid", "point"), ("tframe", "rigid"), ("point", "point")]
-REV_PAIRS = [("origin", "rigid"), ("rigid", "rigid")]
+REV_PAIRS = [("origin", "rigid"), ("rigid", "rigid"), ("rigid", "rframe"), ("rframe", "rigid"), ("tframe", "rigid")]
 
 
 def run(ctx):
